@@ -5,6 +5,10 @@
 // ("sc.remove", "sc.init", "sc.sample", "sc.get") are recorded per call.
 //
 //   c16_scatter hist <out.ndjson> <num-scenarios> <steps-per-scenario> <size-class 0|1|2>
+// Scenario kinds (scenario number mod 4): 0 plain, 1 "wide" (adds threshold / random placement /
+// zoom-factor setters, scanner and image down-sampling, BlocksOnCylindrical templates, the
+// parameter-file route), 2 plain + parameter-file route, 3 automatic zoom settings.
+// Files needed by the parameter-file route are written to <out.ndjson>.files/ and removed again.
 //
 // Every scenario runs in a child process: a crash inside STIR becomes an {"e":"Abort"} line that
 // carries the call history of the scenario (TLC rejects it).
@@ -16,7 +20,11 @@
 #include "stir/ExamInfo.h"
 #include "stir/Succeeded.h"
 #include "stir/is_null_ptr.h"
+#include "stir/IO/write_to_file.h"
+#include "stir/ProjDataInterfile.h"
 #include <sys/mman.h>
+#include <sys/stat.h>
+#include <dirent.h>
 #include <sys/wait.h>
 #include <cstring>
 #include <array>
@@ -27,18 +35,20 @@ using namespace stir;
 struct HookRec {
   std::vector<std::vector<long>> ev;   // [1,kind] remove, [2,kind,keep,np,nd] init, [3,n] sample
   std::vector<unsigned char> code;     // per (scatter point, detector): misses(0,1,2+) + 4*hit + 8*cache-off + 16*miss-after-hit
-  long nd = 0, outside = 0, otherkind = 0;
-  void start(long np, long nd_) { ev.clear(); code.assign((size_t)std::max(0L, np * nd_), 0); nd = nd_; outside = 0; otherkind = 0; }
+  std::vector<unsigned char> codeAtt;  // the same for the attenuation cache (kind 0; only if such a hook exists)
+  long nd = 0, outside = 0, otherkind = 0, attSeen = 0;
+  void start(long np, long nd_) { ev.clear(); code.assign((size_t)std::max(0L, np * nd_), 0); codeAtt.assign(code.size(), 0); nd = nd_; outside = 0; otherkind = 0; attSeen = 0; }
 };
 static HookRec* g_rec = nullptr;
 extern "C" void stir_verif_event(const char* site, long a, long b, long c, long d) {
   if (!g_rec || std::strncmp(site, "sc.", 3) != 0) return;
   const char* s = site + 3;
   if (!std::strcmp(s, "get")) {
-    if (a != 1) { ++g_rec->otherkind; return; }
+    if (a != 1 && a != 0) { ++g_rec->otherkind; return; }
     const long i = b * g_rec->nd + c;
     if (b < 0 || c < 0 || c >= g_rec->nd || i >= (long)g_rec->code.size()) { ++g_rec->outside; return; }
-    unsigned char& x = g_rec->code[(size_t)i];
+    if (a == 0) ++g_rec->attSeen;
+    unsigned char& x = a == 1 ? g_rec->code[(size_t)i] : g_rec->codeAtt[(size_t)i];
     if (d == 0) { if (x & 4) x |= 16; if ((x & 3) < 2) ++x; }
     else if (d == 1) x |= 4;
     else x |= 8;
@@ -50,6 +60,9 @@ extern "C" void stir_verif_event(const char* site, long a, long b, long c, long 
 
 // ------------------------------------------------------------------ access to protected members
 struct T : SingleScatterSimulation {
+  T() {}
+  explicit T(const std::string& parfile) : SingleScatterSimulation(parfile) {}
+  const void* sp_ptr() const { return get_density_image_for_scatter_points_sptr().get(); }
   bool asu() const { return _already_set_up; }
   bool uc() const { return use_cache; }
   long ndp() const { return (long)detection_points_vector.size(); }
@@ -77,12 +90,17 @@ struct Pending {
 };
 
 struct Zoom { float zxy, zz; int sxy, sz; };
-struct Tm { int N, R; float eres; int geo; shared_ptr<ProjDataInfo> pdi; };
+struct Tm { int N, R; float eres; int geo; bool blocks; shared_ptr<ProjDataInfo> pdi; };
 
 struct Obj {
   int id = 0;
   std::unique_ptr<T> s;
   int tm = 0, en = 0, act = 0, att = 0, spSrc = 0 /*0 none 1 explicit 2 derived*/, spId = 0, zoom = 0;
+  int thr = 1; bool rnd = false;
+  bool ptsRnd = false;           // the current points were sampled while random placement was on
+  int dsR = 0, dsD = 0;          // template replaced by downsample_scanner(dsR, dsD) (0 = not)
+  int actDs = 0, attDs = 0;      // image replaced by downsample_images_to_scanner_size under template id .. (0 = not)
+  long nd = 0;                   // detectors of the current template
   shared_ptr<ProjDataInMemory> out;
   HookRec rec;
 };
@@ -92,6 +110,10 @@ struct Scenario {
   long id;
   int size_class;
   bool autozoom;
+  bool wide = false, parse_route = false;
+  std::string files;                           // directory for the parameter-file route
+  std::vector<std::string> written;
+  std::vector<float> thrs = { 0.01F, 0.03F, 0.06F };   // ids 1..
   std::vector<Tm> tms;                         // ids 1..
   std::vector<shared_ptr<ExamInfo>> exs;       // ids 1..
   std::vector<std::array<int, 2>> exwin;
@@ -153,13 +175,17 @@ struct Scenario {
       t.eres = eress[rng.range(0, 3)];
       size_t gi = std::find(usedgeo.begin(), usedgeo.end(), g) - usedgeo.begin();
       if (gi == usedgeo.size()) usedgeo.push_back(g);
-      // geometry class: index of the first template with this (N, R)
+      t.blocks = wide && rng.range(0, 2) == 0;
+      // geometry class: index of the first template with this (N, R, geometry)
       t.geo = 0;
-      for (size_t q = 0; q < tms.size(); ++q) if (tms[q].N == t.N && tms[q].R == t.R && !t.geo) t.geo = tms[q].geo;
+      for (size_t q = 0; q < tms.size(); ++q) if (tms[q].N == t.N && tms[q].R == t.R && tms[q].blocks == t.blocks && !t.geo) t.geo = tms[q].geo;
       if (!t.geo) t.geo = (int)tms.size() + 1;
-      auto sc = vh::make_scanner(t.N, t.R);
+      // ring spacing such that the image made for the template has the same middle plane as the pool images
+      auto sc = vh::make_scanner(t.N, t.R, 0, t.blocks ? "BlocksOnCylindrical" : "Cylindrical", t.R == 2 ? 8.F : 4.F);
       sc->set_reference_energy(511.F); sc->set_energy_resolution(t.eres);
-      t.pdi.reset(ProjDataInfo::ProjDataInfoCTI(sc, 1, t.R - 1, t.N / 2, t.N - 1, false));
+      sc->set_up();
+      // "wide" scenarios: fewer tangential positions so that downsample_scanner (which adds one) yields valid data
+      t.pdi.reset(ProjDataInfo::ProjDataInfoCTI(sc, 1, t.R - 1, t.N / 2, wide ? t.N / 2 + 1 : t.N - 1, false));
       tms.push_back(t);
     }
     // images
@@ -192,24 +218,29 @@ struct Scenario {
 
   // ---------------------------------------------------------------- calls
   Pending& line(const char* e, Obj& o) { lines.emplace_back(e); lines.back().j.num("o", o.id); return lines.back(); }
-  long nd_of(const Obj& o) const { return o.tm ? (long)tms[o.tm - 1].N * tms[o.tm - 1].R : 0; }
+  const void* sp_before = nullptr;
   void begin(Obj& o, const std::string& what) {
     shm_note("o" + std::to_string(o.id) + ":" + what);
-    o.rec.start(o.s ? o.s->get_num_scatter_points() : 0, nd_of(o));
+    o.rec.start(o.s ? o.s->get_num_scatter_points() : 0, o.nd);
+    sp_before = o.s ? o.s->sp_ptr() : nullptr;
     g_rec = &o.rec;
   }
   void post(Pending& p, Obj& o, bool err, bool with_gets = false) {
     g_rec = nullptr;
+    for (auto& e : o.rec.ev) if (e[0] == 3) o.ptsRnd = o.rnd;
     p.j.boolean("err", err).boolean("asu", o.s->asu()).boolean("uc", o.s->uc()).num("np", o.s->get_num_scatter_points())
-        .num("ndp", o.s->ndp()).boolean("hasSp", o.s->has_sp()).arr2("ev", o.rec.ev);
-    if (with_gets) p.j.arr("g", o.rec.code).num("gOutside", o.rec.outside).num("gOther", o.rec.otherkind);
+        .num("ndp", o.s->ndp()).boolean("hasSp", o.s->has_sp()).boolean("spNew", o.s->has_sp() && o.s->sp_ptr() != sp_before).arr2("ev", o.rec.ev);
+    if (with_gets) {
+      p.j.arr("g", o.rec.code).num("gOutside", o.rec.outside).num("gOther", o.rec.otherkind).num("gaSeen", o.rec.attSeen);
+      if (o.rec.attSeen) p.j.arr("ga", o.rec.codeAtt);
+    }
   }
   Obj* create(int zoom) {
     Obj* o = new Obj; o->id = ++next_obj; o->zoom = zoom;
     begin(*o, "New(" + std::to_string(zoom) + ")");
     o->s.reset(new T);
     o->s->set_randomly_place_scatter_points(false);
-    o->s->set_attenuation_threshold(0.01F);
+    o->s->set_attenuation_threshold(thrs[0]);
     if (zoom > 0) { const Zoom& z = zooms[zoom - 1]; o->s->set_image_downsample_factors(z.zxy, z.zz, z.sxy, z.sz); }
     Pending& p = line("New", *o); p.j.num("zoom", zoom);
     post(p, *o, false);
@@ -218,15 +249,37 @@ struct Scenario {
   void set_tmpl(Obj& o, int id) {
     begin(o, "SetTmpl(" + std::to_string(id) + ")");
     bool err = vh::threw([&] { o.s->set_template_proj_data_info(*tms[id - 1].pdi); });
-    if (!err) o.tm = id;
+    if (!err) { o.tm = id; o.dsR = o.dsD = 0; o.nd = (long)tms[id - 1].N * tms[id - 1].R; }
     Pending& p = line("SetTmpl", o); p.j.num("id", id); post(p, o, err);
   }
   void set_out(Obj& o) {   // output projection data for the current template
     if (!o.tm) return;
     begin(o, "SetOut");
-    o.out.reset(new ProjDataInMemory(exs[o.en ? o.en - 1 : 0], tms[o.tm - 1].pdi->create_shared_clone()));
+    o.out.reset(new ProjDataInMemory(exs[o.en ? o.en - 1 : 0], o.s->get_template_proj_data_info_sptr()->create_shared_clone()));
     bool err = vh::threw([&] { o.s->set_output_proj_data_sptr(o.out); });
     Pending& p = line("SetOut", o); p.j.num("id", o.tm); post(p, o, err);
+  }
+  // downsample_scanner(rings, detectors): new template and new (in-memory) output data
+  void ds_scanner(Obj& o, int r, int d) {
+    begin(o, "DsScanner(" + std::to_string(r) + "," + std::to_string(d) + ")");
+    bool ok = false;
+    bool err = vh::threw([&] { ok = o.s->downsample_scanner(r, d) == Succeeded::yes; });
+    long nn = 0, rr = 0, tang = 0;
+    if (!err && ok) {
+      auto pdi = o.s->get_template_proj_data_info_sptr();
+      nn = pdi->get_scanner_ptr()->get_num_detectors_per_ring(); rr = pdi->get_scanner_ptr()->get_num_rings(); tang = pdi->get_num_tangential_poss();
+      o.dsR = r; o.dsD = d; o.nd = nn * rr;
+      o.out = std::dynamic_pointer_cast<ProjDataInMemory>(o.s->get_output_proj_data_sptr());
+    }
+    Pending& p = line("DsScanner", o); p.j.num("dr", r).num("dd", d).boolean("ok", ok).num("newN", nn).num("newR", rr).num("newTang", tang).boolean("outInMemory", (bool)o.out);
+    post(p, o, err);
+  }
+  void ds_images(Obj& o) {
+    begin(o, "DsImages");
+    bool ok = false;
+    bool err = vh::threw([&] { ok = o.s->downsample_images_to_scanner_size() == Succeeded::yes; });
+    if (!err && ok) { if (o.act) o.actDs = o.tm; if (o.att) o.attDs = o.tm; }
+    Pending& p = line("DsImages", o); p.j.boolean("ok", ok); post(p, o, err);
   }
   void set_energy(Obj& o, int id) {
     begin(o, "SetEnergy(" + std::to_string(id) + ")");
@@ -237,13 +290,13 @@ struct Scenario {
   void set_act(Obj& o, int id) {
     begin(o, "SetAct(" + std::to_string(id) + ")");
     bool err = vh::threw([&] { o.s->set_activity_image_sptr(acts[id - 1]); });
-    if (!err) o.act = id;
+    if (!err) { o.act = id; o.actDs = 0; }
     Pending& p = line("SetAct", o); p.j.num("id", id); post(p, o, err);
   }
   void set_att(Obj& o, int id) {
     begin(o, "SetAtt(" + std::to_string(id) + ")");
     bool err = vh::threw([&] { o.s->set_density_image_sptr(atts[id - 1]); });
-    if (!err) { o.att = id; o.spSrc = 0; }
+    if (!err) { o.att = id; o.attDs = 0; o.spSrc = 0; }
     Pending& p = line("SetAtt", o); p.j.num("id", id); post(p, o, err);
   }
   void set_sp(Obj& o, int id) {
@@ -258,6 +311,25 @@ struct Scenario {
     bool err = vh::threw([&] { o.s->downsample_density_image_for_scatter_points(z.zxy, z.zz, z.sxy, z.sz); });
     if (!err) { o.spSrc = 2; o.zoom = zoom; }
     Pending& p = line("Downsample", o); p.j.num("zoom", zoom); post(p, o, err);
+  }
+  void set_zoom(Obj& o, int zoom) {   // set_image_downsample_factors only (no derivation)
+    const Zoom& z = zooms[zoom - 1];
+    begin(o, "SetZoom(" + std::to_string(zoom) + ")");
+    bool err = vh::threw([&] { o.s->set_image_downsample_factors(z.zxy, z.zz, z.sxy, z.sz); });
+    if (!err) o.zoom = zoom;
+    Pending& p = line("SetZoom", o); p.j.num("zoom", zoom); post(p, o, err);
+  }
+  void set_thr(Obj& o, int id) {
+    begin(o, "SetThr(" + std::to_string(id) + ")");
+    bool err = vh::threw([&] { o.s->set_attenuation_threshold(thrs[id - 1]); });
+    if (!err) o.thr = id;
+    Pending& p = line("SetThr", o); p.j.num("id", id); post(p, o, err);
+  }
+  void set_rnd(Obj& o, bool b) {
+    begin(o, std::string("SetRnd(") + (b ? "1)" : "0)"));
+    o.rnd = b;
+    bool err = vh::threw([&] { o.s->set_randomly_place_scatter_points(b); });
+    Pending& p = line("SetRnd", o); p.j.boolean("b", b); post(p, o, err);
   }
   void set_cache(Obj& o, bool b, bool via_enabled) {
     begin(o, std::string(via_enabled ? "SetCacheEnabled(" : "SetUseCache(") + (b ? "1)" : "0)"));
@@ -289,12 +361,13 @@ struct Scenario {
   // currently in the output projection data
   void pairs(Obj& o) {
     const long n = o.s->ndp();
-    if (!o.s->asu() || n <= 0 || n != nd_of(o) || !o.out) return;
+    if (!o.s->asu() || n <= 0 || n != o.nd || !o.out) return;
     begin(o, "Pairs");
     Pending& p = line("Pairs", o);
     std::vector<long> pa, pb;
     std::vector<double> ab, ba, ob;
-    const ProjDataInfo& pdi = *tms[o.tm - 1].pdi;
+    const shared_ptr<const ProjDataInfo> pdi_sptr = o.s->get_template_proj_data_info_sptr();
+    const ProjDataInfo& pdi = *pdi_sptr;
     bool err = vh::threw([&] {
       for (int seg = pdi.get_min_segment_num(); seg <= pdi.get_max_segment_num(); ++seg)
         for (int ax = pdi.get_min_axial_pos_num(seg); ax <= pdi.get_max_axial_pos_num(seg); ++ax)
@@ -318,25 +391,153 @@ struct Scenario {
     delete o;
   }
 
-  // a freshly configured object with the same final settings (cache flag chosen independently)
+  // a freshly configured object with the same final settings (cache flag chosen independently).
+  // Settings the sampled points depend on are set first; images that the history object had zoomed
+  // with downsample_images_to_scanner_size are zoomed under the same template.
   void fresh_like(const Obj& h) {
+    if (h.rnd || h.ptsRnd) return;      // randomly placed points are seeded by the clock: no two objects agree
     Obj* f = create(h.zoom);
-    std::vector<int> order = { 0, 1, 2, 3 };
-    for (int i = 3; i > 0; --i) std::swap(order[i], order[rng.range(0, i)]);
     const bool cache = rng.coin();
     if (rng.coin()) set_cache(*f, cache, rng.coin());
-    for (int w : order) {
-      if (w == 0) { set_tmpl(*f, h.tm); }
-      else if (w == 1) set_energy(*f, h.en);
-      else if (w == 2) set_act(*f, h.act);
-      else { set_att(*f, h.att); if (h.spSrc == 1) set_sp(*f, h.spId); }
+    if (h.thr != 1) set_thr(*f, h.thr);
+    if (h.actDs || h.attDs || h.dsR) {
+      const int dt = h.actDs ? h.actDs : h.attDs;
+      if (dt) {
+        set_tmpl(*f, dt);
+        if (h.actDs) set_act(*f, h.act);
+        if (h.attDs) set_att(*f, h.att);
+        ds_images(*f);
+      }
+      if (!h.actDs) set_act(*f, h.act);
+      if (!h.attDs) set_att(*f, h.att);
+      set_energy(*f, h.en);
+      set_tmpl(*f, h.tm);
+      if (h.dsR) ds_scanner(*f, h.dsR, h.dsD);
+      if (h.spSrc == 1) set_sp(*f, h.spId);
+    } else {
+      std::vector<int> order = { 0, 1, 2, 3 };
+      for (int i = 3; i > 0; --i) std::swap(order[i], order[rng.range(0, i)]);
+      for (int w : order) {
+        if (w == 0) { set_tmpl(*f, h.tm); }
+        else if (w == 1) set_energy(*f, h.en);
+        else if (w == 2) set_act(*f, h.act);
+        else { set_att(*f, h.att); if (h.spSrc == 1) set_sp(*f, h.spId); }
+      }
     }
     if (f->s->uc() != cache) set_cache(*f, cache, rng.coin());
-    set_out(*f);
+    if (!h.dsR) set_out(*f);
     set_up(*f);
     compute(*f, true);
     if (rng.range(0, 5) == 0) pairs(*f);
     destroy(f);
+  }
+
+  // ---------------------------------------------------------------- parameter-file route
+  std::string file_of(const std::string& name) { return files + "/s" + std::to_string(id) + "_" + name; }
+  void note_written(const std::string& base, const std::vector<const char*>& exts) { for (auto e : exts) written.push_back(base + e); }
+  std::string image_file(const char* kind, int idx, const Img& im) {
+    const std::string base = file_of(std::string(kind) + std::to_string(idx));
+    struct stat st;
+    if (stat((base + ".hv").c_str(), &st) != 0) { write_to_file(base, im); note_written(base, { ".hv", ".v", ".ahv" }); }
+    return base + ".hv";
+  }
+  std::string template_file(int tm, int en) {
+    const std::string base = file_of("tm" + std::to_string(tm) + "e" + std::to_string(en));
+    struct stat st;
+    if (stat((base + ".hs").c_str(), &st) != 0) { ProjDataInterfile pd(exs[en - 1], tms[tm - 1].pdi->create_shared_clone(), base, std::ios::out | std::ios::trunc); note_written(base, { ".hs", ".s" }); }
+    return base + ".hs";
+  }
+  Obj* parse_obj(const std::string& parfile, const Obj& h, bool cache, int rt, std::string* info_out) {
+    Obj* o = new Obj; o->id = ++next_obj;
+    begin(*o, "Parse");
+    std::string msg;
+    bool err = vh::threw([&] { o->s.reset(new T(parfile)); }, &msg);
+    Pending& p = line("Parse", *o);
+    p.j.num("tm", h.tm).num("en", h.en).num("act", h.act).num("att", h.att).num("sp", h.spSrc == 1 ? h.spId : 0).num("zoom", h.zoom).num("thr", h.thr)
+        .boolean("ucArg", cache).num("rt", rt);
+    if (err || !o->s) { p.j.boolean("err", true).str("msg", msg); delete o; return nullptr; }
+    o->tm = h.tm; o->en = h.en; o->act = h.act; o->att = h.att; o->spSrc = h.spSrc == 1 ? 1 : 0; o->spId = h.spId; o->zoom = h.zoom; o->thr = h.thr;
+    o->nd = (long)tms[h.tm - 1].N * tms[h.tm - 1].R;
+    std::string info = o->s->parameter_info();
+    if (info_out) *info_out = info;
+    p.j.str("info", info);
+    post(p, *o, false);
+    return o;
+  }
+  // the history object's final settings written as a parameter file, parsed; then the parsed object's
+  // own parameter_info() parsed again
+  void parsed_like(const Obj& h) {
+    if (h.rnd || h.ptsRnd || h.dsR || h.actDs || h.attDs || !h.tm || !h.en || !h.act || !h.att || h.spSrc == 0) return;
+    // (user-defined BlocksOnCylindrical scanners whose crystals fill the block exactly do not survive the 6-digit header: not this property)
+    if (tms[h.tm - 1].blocks) return;
+    const bool cache = rng.coin();
+    const std::string par = file_of("o" + std::to_string(next_obj + 1) + ".par");
+    {
+      std::ofstream f(par.c_str());
+      f << "PET Single Scatter Simulation Parameters :=\n";
+      f << " template projdata filename := " << template_file(h.tm, h.en) << "\n";
+      f << " attenuation image filename := " << image_file("att", h.att, *atts[h.att - 1]) << "\n";
+      if (h.spSrc == 1) f << " attenuation image for scatter points filename := " << image_file("sp", h.spId, *sps[h.spId - 1]) << "\n";
+      if (h.zoom > 0) {
+        const Zoom& z = zooms[h.zoom - 1];
+        f << " zoom XY for attenuation image for scatter points := " << z.zxy << "\n zoom Z for attenuation image for scatter points := " << z.zz << "\n";
+        f << " XY size of downsampled image for scatter points := " << z.sxy << "\n Z size of downsampled image for scatter points := " << z.sz << "\n";
+      }
+      f << " activity image filename := " << image_file("act", h.act, *acts[h.act - 1]) << "\n";
+      f << " attenuation threshold := " << thrs[h.thr - 1] << "\n randomly place scatter points := 0\n use cache := " << (cache ? 1 : 0) << "\n";
+      f << "end PET Single Scatter Simulation Parameters :=\n";
+    }
+    written.push_back(par);
+    std::string info;
+    Obj* a = parse_obj(par, h, cache, 0, &info);
+    if (!a) return;
+    set_out(*a); set_up(*a); compute(*a, true);
+    const std::string par2 = file_of("o" + std::to_string(next_obj + 1) + ".par");
+    { std::ofstream f(par2.c_str()); f << info; }
+    written.push_back(par2);
+    Obj* b = parse_obj(par2, h, cache, a->id, nullptr);
+    if (b) { set_out(*b); set_up(*b); compute(*b, true); destroy(b); }
+    destroy(a);
+  }
+
+  // ---------------------------------------------------------------- energy-window algebra (public functions only)
+  void phys() {
+    Obj* o = create(autozoom ? 0 : 1);
+    set_tmpl(*o, 1);
+    const int a = rng.range(250, 400), b = rng.range(430, 520), c = rng.range(540, 800);
+    const int wins[6][2] = { { a, b }, { b, c }, { a, c }, { b, a }, { -5000, 5000 }, { c, c + 100 } };
+    std::vector<int> energies;
+    for (int e = 170; e <= 511; e += 31) energies.push_back(e);
+    std::vector<std::vector<long>> eff, w;
+    shm_note("o" + std::to_string(o->id) + ":Phys");
+    for (auto& win : wins) {
+      ExamInfo ex; ex.set_low_energy_thres((float)win[0]); ex.set_high_energy_thres((float)win[1]); ex.imaging_modality = ImagingModality::PT;
+      o->s->set_exam_info(ex);
+      std::vector<long> row;
+      for (int e : energies) row.push_back((long)vh::fx(o->s->detection_efficiency((float)e), 22));
+      eff.push_back(row); w.push_back({ win[0], win[1] });
+    }
+    std::vector<long> cosv, e1, e2; std::vector<double> dif, tot, rel;
+    for (int q = -8; q <= 8; ++q) {
+      const float cs = q / 8.F;
+      cosv.push_back(q);
+      e1.push_back((long)vh::fx(ScatterSimulation::photon_energy_after_Compton_scatter_511keV(cs), 16));
+      e2.push_back((long)vh::fx(ScatterSimulation::photon_energy_after_Compton_scatter(cs, 511.F), 16));
+      dif.push_back(ScatterSimulation::dif_Compton_cross_section(cs, 511.F));
+    }
+    for (int e : energies) { tot.push_back(ScatterSimulation::total_Compton_cross_section((float)e)); rel.push_back(ScatterSimulation::total_Compton_cross_section_relative_to_511keV((float)e)); }
+    auto scaled = [](const std::vector<double>& v, int bits, int* kk) {
+      double mx = 0; for (double x : v) mx = std::max(mx, std::fabs(x));
+      int k = 0; if (mx > 0) { int e; std::frexp(mx, &e); k = bits - e; }
+      std::vector<long> r; for (double x : v) r.push_back((long)vh::fx(x, k)); *kk = k; return r; };
+    int kd = 0, kt = 0, kr = 0;
+    auto difs = scaled(dif, 20, &kd); auto tots = scaled(tot, 15, &kt); auto rels = scaled(rel, 14, &kr);
+    lines.emplace_back("Phys");
+    lines.back().j.num("o", o->id).arr2("win", w).arr("energies", energies).arr2("eff", eff).num("effK", 22)
+        .arr("cos8", cosv).arr("e511", e1).arr("eGen", e2).num("eK", 16).arr("dif", difs).arr("tot", tots).arr("rel", rels).num("relK", kr);
+    // the object was used outside the state machine: forget it
+    lines.emplace_back("Delete"); lines.back().j.num("o", o->id);
+    delete o;
   }
 
   void run(int steps) {
@@ -361,6 +562,48 @@ struct Scenario {
     for (int st = 0; st < steps; ++st) {
       int w = rng.range(0, 99);
       if (st == steps / 2 && !algebra_done) w = 95;
+      if (wide && st == steps / 3 && h->tm && h->en && h->att) {
+        // one pass through every setter beyond the property's list, each followed by set_up / process_data / fresh twin
+        auto check = [&]() { if (h->out && set_up(*h) && compute(*h, false)) { fresh_like(*h); return true; } return false; };
+        if (h->dsR) { set_tmpl(*h, h->tm); }
+        set_out(*h);
+        set_act(*h, rng.range(1, 2));
+        // threshold after the points were sampled
+        set_sp(*h, rng.range(1, (int)sps.size())); check();
+        set_thr(*h, h->thr % (int)thrs.size() + 1); check();
+        // zoom factors after set_up derived the image
+        set_att(*h, h->att); check();
+        set_zoom(*h, h->zoom % (int)zooms.size() + 1); check();
+        // images zoomed to the template's grid after set_up derived the scatter-point image
+        if (!h->actDs && !h->attDs && 2 * tms[h->tm - 1].R - 1 == att_nz) { ds_images(*h); check(); }
+        // coarser scanner
+        { const Tm& tt = tms[h->tm - 1]; ds_scanner(*h, rng.coin() ? 2 : tt.R, tt.blocks ? tt.N : (tt.N == 16 ? 8 : (rng.coin() ? 16 : 12))); if (check()) pairs(*h); }
+        // random placement: only the discrete clauses and the detector-exchange symmetry remain
+        set_rnd(*h, true); set_att(*h, rng.range(1, (int)atts.size())); if (check()) pairs(*h);
+        set_rnd(*h, false); check();
+        set_att(*h, h->att); check();
+        continue;
+      }
+      if (wide && rng.range(0, 2) == 0) {
+        // the setters beyond the property's list
+        const int v = rng.range(0, 9);
+        if (v < 2) set_thr(*h, rng.range(1, (int)thrs.size()));
+        else if (v < 3) set_rnd(*h, !h->rnd);
+        else if (v < 5) set_zoom(*h, rng.range(1, (int)zooms.size()));
+        else if (v < 7) {
+          // downsample_scanner of an original template (rings, detectors per ring)
+          if (h->tm && !h->dsR) { const Tm& t = tms[h->tm - 1]; ds_scanner(*h, rng.coin() ? 2 : t.R, t.blocks ? t.N : (t.N == 16 ? 8 : (rng.coin() ? 16 : 12))); }
+          else if (h->tm) { set_tmpl(*h, h->tm); set_out(*h); }
+        }
+        else if (v < 9) {
+          // downsample_images_to_scanner_size: once, under an original template whose image grid has as
+          // many planes as the pool's attenuation images (so that the explicit zoom settings stay legal)
+          if (h->tm && !h->dsR && !h->actDs && !h->attDs && (h->act || h->att) && 2 * tms[h->tm - 1].R - 1 == att_nz) ds_images(*h);
+          else set_att(*h, rng.range(1, (int)atts.size()));
+        }
+        else if (h->rnd) set_rnd(*h, false);
+        continue;
+      }
       if (w < 12) set_act(*h, rng.range(1, (int)acts.size()));
       else if (w < 22) set_att(*h, rng.range(1, (int)atts.size()));
       else if (w < 30) { if (!autozoom) set_sp(*h, rng.range(1, (int)sps.size())); else set_att(*h, rng.range(1, (int)atts.size())); }
@@ -372,15 +615,18 @@ struct Scenario {
       else if (w < 80) { if (compute(*h, false) && rng.coin()) fresh_like(*h); }
       else if (w < 84) set_out(*h);
       else if (w < 88) pairs(*h);
-      else if (w < 95) { if (set_up(*h) && compute(*h, false)) { fresh_like(*h); if (rng.coin()) pairs(*h); } }
+      else if (w < 95) { if (set_up(*h) && compute(*h, false)) { fresh_like(*h); if (parse_route && rng.coin()) parsed_like(*h); if (rng.coin()) pairs(*h); } }
       else {
         // all activity images of the pool under the current other settings
         algebra_done = true;
         for (int a = 1; a <= (int)acts.size(); ++a) { set_act(*h, a); if (rng.range(0, 3) == 0) set_cache(*h, rng.coin(), rng.coin()); if (set_up(*h)) compute(*h, false); }
       }
     }
-    if (set_up(*h) && compute(*h, false)) { fresh_like(*h); pairs(*h); }
+    if (h->rnd) set_rnd(*h, false);
+    if (set_up(*h) && compute(*h, false)) { fresh_like(*h); if (parse_route) parsed_like(*h); pairs(*h); }
     destroy(h);
+    phys();
+    for (auto& f : written) std::remove(f.c_str());
   }
 
   // ---------------------------------------------------------------- emission
@@ -391,7 +637,7 @@ struct Scenario {
     if (mx > 0) { int e; std::frexp(mx, &e); k = 28 - e; }     // mx < 2^e  =>  mx * 2^k < 2^28
     k = std::max(-100, std::min(200, k));
     vh::Json c("Config");
-    c.num("id", id).num("k", k).boolean("autoZoom", autozoom).num("sizeClass", size_class);
+    c.num("id", id).num("k", k).boolean("autoZoom", autozoom).boolean("wide", wide).boolean("parseRoute", parse_route).num("sizeClass", size_class).num("nThr", (long)thrs.size());
     std::vector<long> dets, geo, nn, rr, er, bins;
     for (auto& t : tms) { dets.push_back((long)t.N * t.R); geo.push_back(t.geo); nn.push_back(t.N); rr.push_back(t.R); er.push_back(std::lround(t.eres * 100)); }
     c.arr("dets", dets).arr("geo", geo).arr("N", nn).arr("R", rr).arr("eres", er).arr2("win", exwin);
@@ -417,16 +663,20 @@ int main(int argc, char** argv) {
   vh::Trace tr(argv[2]);
   const int nscen = atoi(argv[3]), steps = atoi(argv[4]), size_class = atoi(argv[5]);
   const long long seed = vh::seed_from_env();
+  const std::string files = std::string(argv[2]) + ".files";
+  mkdir(files.c_str(), 0777);
   g_shm = (char*)mmap(nullptr, SHM, PROT_READ | PROT_WRITE, MAP_SHARED | MAP_ANONYMOUS, -1, 0);
   if (g_shm == MAP_FAILED) { perror("mmap"); return 3; }
   for (int sc = 0; sc < nscen; ++sc) {
     g_shm[0] = 0;
     tr.flush();
     const bool autozoom = sc % 4 == 3;
+    const bool wide = sc % 4 == 1, parse_route = sc % 4 == 1 || sc % 4 == 2;
     pid_t pid = fork();
     if (pid < 0) { perror("fork"); return 3; }
     if (pid == 0) {
       Scenario s(seed * 1000003LL + sc * 7919LL + size_class * 31LL, sc + 1, size_class, autozoom);
+      s.wide = wide; s.parse_route = parse_route; s.files = files;
       s.run(steps);
       s.emit(tr);
       _exit(0);
@@ -437,10 +687,13 @@ int main(int argc, char** argv) {
       // the child died inside a STIR call: record the call history of the scenario
       vh::Json a("Abort");
       a.num("scenario", sc + 1).num("signal", WIFSIGNALED(status) ? WTERMSIG(status) : 0).num("exit", WIFEXITED(status) ? WEXITSTATUS(status) : -1)
-          .boolean("autoZoom", autozoom).num("sizeClass", size_class).str("history", g_shm);
+          .boolean("autoZoom", autozoom).boolean("wide", wide).num("sizeClass", size_class).str("history", g_shm);
       tr.emit(a);
       tr.flush();
     }
   }
+  // files of scenarios that crashed
+  if (DIR* d = opendir(files.c_str())) { while (dirent* e = readdir(d)) if (e->d_name[0] != '.') std::remove((files + "/" + e->d_name).c_str()); closedir(d); }
+  rmdir(files.c_str());
   return 0;
 }
